@@ -560,7 +560,8 @@ def generate():
     node_pins = node_identity_pins()
     nodemaker_part(out)
     dirnode_pins = simple_pins("src/allmydata/dirnode.py", ["_pack_normalized_children", "DirectoryNode._unpack_contents",
-                                                            "DirectoryNode._create_and_validate_node", "DirectoryNode._pack_contents"])
+                                                            "DirectoryNode._create_and_validate_node", "DirectoryNode._pack_contents",
+                                                            "DirectoryNode._create_readonly_node"])
     prohibited_pins = simple_pins("src/allmydata/blacklist.py", ["ProhibitedNode." + m for m in (
         "get_cap", "get_readcap", "get_uri", "get_write_uri", "get_readonly_uri", "is_readonly", "is_mutable", "is_unknown",
         "is_allowed_in_immutable_directory", "raise_error", "get_verify_cap", "get_storage_index")])
